@@ -49,18 +49,33 @@ def values(shape, seed, domain, k):
 
 
 class Entry:
-    def __init__(self, family, label, shapes, fn, domains=None, note=None, only=None):
+    def __init__(self, family, label, shapes, fn, domains=None, note=None, only=None, prep=None):
         self.family, self.label, self.shapes, self.fn = family, label, [tuple(s) for s in shapes], fn
         self.domains = domains or ["any"] * len(shapes)
         self.note = note
         self.only = only      # None = every mode; otherwise the set of modes the entry is meant for
+        self.prep = prep      # optional in-place edit of the generated operand arrays (e.g. plant exact zeros)
+
+
+def operand_arrays(e, seed, dtype=None):
+    arrays = [values(s, seed, d, k) for k, (s, d) in enumerate(zip(e.shapes, e.domains))]
+    if e.prep is not None:
+        e.prep(arrays)
+    return [a.astype(dtype) for a in arrays] if dtype is not None else arrays
+
+
+def _plant(pos_list):
+    def f(arrays):
+        for k, ix, v in pos_list:
+            arrays[k][ix] = v
+    return f
 
 
 def catalog():
     E = []
 
-    def add(family, label, shapes, fn, domains=None, only=None):
-        E.append(Entry(family, label, shapes, fn, domains, only=only))
+    def add(family, label, shapes, fn, domains=None, only=None, prep=None):
+        E.append(Entry(family, label, shapes, fn, domains, only=only, prep=prep))
 
     # ---- unary element-wise
     un = {"absolute": "any", "arccos": "unit", "arccosh": "gt1", "arcsin": "unit", "arcsinh": "any", "arctan": "any", "arctanh": "unit", "cbrt": "any", "cos": "any", "cosh": "small",
@@ -104,11 +119,11 @@ def catalog():
     # where= WITHOUT out=: masked-out positions of the result are uninitialised memory, so these entries are used for the aliasing oracle only
     for name in ("add", "subtract", "multiply", "maximum"):
         f = getattr(mg, name)
-        add("binary", "%s where-no-out" % name, [(2, 3), (3,)], (lambda f: lambda a, b: f(a, b, where=np.array([[True, False, True], [False, False, True]])))(f), only={"alias"})
-        add("binary", "%s where-no-out broadcast mask" % name, [(2, 3), (2, 3)], (lambda f: lambda a, b: f(a, b, where=np.array([True, False, True])))(f), only={"alias"})
+        add("binary", "%s where-no-out" % name, [(2, 3), (3,)], (lambda f: lambda a, b: f(a, b, where=np.array([[True, False, True], [False, False, True]])))(f), only={"alias", "gradtype"})
+        add("binary", "%s where-no-out broadcast mask" % name, [(2, 3), (2, 3)], (lambda f: lambda a, b: f(a, b, where=np.array([True, False, True])))(f), only={"alias", "gradtype"})
     for name in ("positive", "negative", "exp"):
         f = getattr(mg, name)
-        add("unary", "%s where-no-out" % name, [(2, 3)], (lambda f: lambda a: f(a, where=np.array([True, False, True])))(f), only={"alias"})
+        add("unary", "%s where-no-out" % name, [(2, 3)], (lambda f: lambda a: f(a, where=np.array([True, False, True])))(f), only={"alias", "gradtype"})
     add("binary", "power int exponent 3", [(2, 3)], lambda a: mg.power(a, 3))
     add("binary", "power ** 2 negative base", [(2, 3)], lambda a: a ** 2)
     add("binary", "power ** -1", [(2, 3)], lambda a: a ** -1)
@@ -148,6 +163,12 @@ def catalog():
             for ax in axes:
                 add("reduce", "%s%s axis=%s" % (name, sh, ax), [sh], (lambda f, ax: lambda x: f(x, axis=ax))(f, ax))
     add("reduce", "cumprod with a zero", [(2, 3)], lambda x: mg.cumprod(x * np.array([[1.0, 0.0, 1.0], [1.0, 1.0, 1.0]]), axis=1))
+    # exact zeros IN THE OPERAND ITSELF (the zero-patching branches of prod / cumprod work on copies of the operand's data)
+    add("reduce", "cumprod operand with zeros", [(2, 3)], lambda x: mg.cumprod(x, axis=1), prep=_plant([(0, (0, 1), 0.0), (0, (1, 0), 0.0)]))
+    add("reduce", "cumprod operand with zeros axis=None", [(2, 3)], lambda x: mg.cumprod(x), prep=_plant([(0, (0, 2), 0.0)]))
+    add("reduce", "prod operand with a zero", [(2, 3)], lambda x: mg.prod(x, axis=1), prep=_plant([(0, (0, 1), 0.0)]))
+    add("reduce", "prod operand with two zeros", [(2, 3)], lambda x: mg.prod(x, axis=1), prep=_plant([(0, (0, 1), 0.0), (0, (0, 2), 0.0)]))
+    add("nary", "multiply_sequence operand with a zero", [(2, 3), (2, 3)], lambda a, b: mg.multiply_sequence(a, b, a), prep=_plant([(0, (0, 1), 0.0)]))
 
     # ---- linear algebra
     for sa, sb in (((2, 3), (3, 2)), ((3,), (3,)), ((2, 3), (3,)), ((3,), (3, 2)), ((2, 2, 3), (3, 2)), ((2, 3), (2, 3, 2)), ((2, 1, 2, 3), (3, 3, 2)), ((1, 3), (3, 1))):
@@ -173,6 +194,11 @@ def catalog():
             if ordv is not None and ax is None:
                 continue
             add("linalg", "norm ord=%s axis=%s keepdims=%s" % (ordv, ax, kd), [(3, 4)], (lambda o, ax, kd: lambda x: mg.linalg.norm(x, ord=o, axis=ax, keepdims=kd))(ordv, ax, kd))
+    # an all-zero lane: the gradient is nan by definition (no vjp comparison), but nothing may be written into any tensor's data
+    for ordv in (1, 2, 3):
+        for kd in (False, True):
+            add("linalg", "norm ord=%s zero lane keepdims=%s" % (ordv, kd), [(3, 4)], (lambda o, kd: lambda x: mg.linalg.norm(x, ord=o, axis=1, keepdims=kd))(ordv, kd),
+                only={"alias", "release", "const"}, prep=_plant([(0, (1, slice(None)), 0.0)]))
     add("linalg", "norm 1d ord=3", [(4,)], lambda x: mg.linalg.norm(x, ord=3))
     add("linalg", "norm 1d", [(4,)], lambda x: mg.linalg.norm(x))
     add("linalg", "norm 3d axis=1 ord=3", [(2, 3, 2)], lambda x: mg.linalg.norm(x, ord=3, axis=1))
@@ -327,7 +353,7 @@ def relayout(a, layout):
 
 def run_vjp(e, seed, layout=0):
     reset_global_state()
-    arrays = [values(s, seed, d, k) for k, (s, d) in enumerate(zip(e.shapes, e.domains))]
+    arrays = operand_arrays(e, seed)
     xs = [mg.tensor(relayout(a, layout), copy=False) for a in arrays]
     out = e.fn(*xs)
     res = {"label": e.label, "family": e.family, "out_shape": list(out.shape), "sizes": [int(a.size) for a in arrays], "layout": layout}
@@ -359,7 +385,9 @@ def run_alias(e, seed, variant):
     """variant: 0 all tensors + owning seed; 1 first operand a raw array, non-owning seed; 2 float32, read-only seed copy"""
     reset_global_state()
     dt = np.float32 if variant == 2 else np.float64
-    arrays = [values(s, seed, d, k).astype(dt) for k, (s, d) in enumerate(zip(e.shapes, e.domains))]
+    if variant == 4:
+        mg.turn_memory_guarding_off()      # nothing is locked: an operation that scribbles on its operands in backward() is not stopped by NumPy
+    arrays = operand_arrays(e, seed, dt)
     msgs = []
     owned = [a.copy() for a in arrays]
     snap = [a.copy() for a in owned]
@@ -457,6 +485,72 @@ def run_alias(e, seed, variant):
     return {"label": e.label, "family": e.family, "msgs": sorted(set(msgs))}
 
 
+MIXES = {0: lambda k: "float32", 1: lambda k: "float32" if k == 0 else "float64", 2: lambda k: "float64" if k == 0 else "float32", 3: lambda k: "float16" if k == 0 else "float64",
+         4: lambda k: "float64"}
+
+
+def run_gradtype(e, seed, mix):
+    """C14 invariant for every operation: after backward every operand's .grad is a numpy.ndarray with exactly that operand's shape and dtype,
+    whatever mixture of float precisions the operands have (mix: see MIXES)"""
+    reset_global_state()
+    arrays = operand_arrays(e, seed)
+    xs = [mg.tensor(a.astype(MIXES[mix](k))) for k, a in enumerate(arrays)]
+    try:
+        out = e.fn(*xs)
+    except Exception as ex:
+        return {"label": e.label, "family": e.family, "skipped": "forward raised " + type(ex).__name__}
+    if not isinstance(out, mg.Tensor) or out.constant:
+        return {"label": e.label, "family": e.family, "skipped": "constant"}
+    msgs = []
+    try:
+        (out if out.ndim == 0 else out.sum()).backward()
+    except Exception as ex:
+        return {"label": e.label, "family": e.family, "msgs": ["backward raised %s: %s" % (type(ex).__name__, str(ex)[:80])]}
+    for k, x in enumerate(xs + [out]):
+        g = x.grad
+        if g is None:
+            continue
+        if type(g) is not np.ndarray:
+            msgs.append("operand %d: .grad is a %s, not a numpy.ndarray" % (k, type(g).__name__))
+        elif g.dtype != x.dtype or g.shape != x.shape:
+            msgs.append("%s: .grad has dtype %s shape %s, the tensor %s %s" % ("operand %d" % k if k < len(xs) else "result", g.dtype, g.shape, x.dtype, x.shape))
+    return {"label": e.label, "family": e.family, "msgs": msgs}
+
+
+def run_untracked(e, seed, mix):
+    """C15 for every operation: inside no_autodiff the result has the same values and dtype as with tracking on (mixed operand precisions included)"""
+    reset_global_state()
+    arrays = operand_arrays(e, seed)
+
+    def call(tracked):
+        xs = [mg.tensor(a.astype(MIXES[mix](k))) for k, a in enumerate(arrays)]
+        if tracked:
+            return e.fn(*xs)
+        with mg.no_autodiff:
+            return e.fn(*xs)
+    try:
+        a = call(True)
+    except Exception as ex:
+        a = ex
+    try:
+        b = call(False)
+    except Exception as ex:
+        b = ex
+    if isinstance(a, Exception) or isinstance(b, Exception):
+        if isinstance(a, Exception) != isinstance(b, Exception):
+            return {"label": e.label, "family": e.family, "msgs": ["raises only %s graph tracking: %s" % ("with" if isinstance(a, Exception) else "without", a if isinstance(a, Exception) else b)]}
+        return {"label": e.label, "family": e.family, "skipped": "raises"}
+    da, db = np.asarray(a.data if isinstance(a, mg.Tensor) else a), np.asarray(b.data if isinstance(b, mg.Tensor) else b)
+    msgs = []
+    if da.dtype != db.dtype or da.shape != db.shape:
+        msgs.append("untracked result has dtype %s shape %s, tracked %s %s" % (db.dtype, db.shape, da.dtype, da.shape))
+    elif not np.array_equal(da, db, equal_nan=True):
+        msgs.append("untracked values differ from the tracked ones (max abs diff %g)" % float(np.nanmax(np.abs(da.astype(np.float64) - db.astype(np.float64)))))
+    if isinstance(b, mg.Tensor) and b.creator is not None:
+        msgs.append("an operation inside no_autodiff recorded a creator")
+    return {"label": e.label, "family": e.family, "msgs": msgs}
+
+
 def run_const(e, seed, variant):
     """C10 for every operation: arrays and constant tensors are constants; the result is constant exactly when every input is.
     variant 0: all operands raw arrays; 1: all constant tensors; 2: operand 0 a non-constant tensor, the others raw arrays;
@@ -533,7 +627,7 @@ def run_release(e, seed, kind):
     gc.collect()
     gc.disable()
     base = _census()
-    owned = [values(s, seed, d, k) for k, (s, d) in enumerate(zip(e.shapes, e.domains))]
+    owned = operand_arrays(e, seed)
     try:
         how = _release_body(e, seed, owned, kind)
     except Exception as ex:
@@ -665,6 +759,10 @@ def main():
         try:
             if t["mode"] == "vjp":
                 out.append(run_vjp(e, t.get("seed", 0), t.get("layout", 0)))
+            elif t["mode"] == "gradtype":
+                out.append(run_gradtype(e, t.get("seed", 0), t.get("mix", 0)))
+            elif t["mode"] == "untracked":
+                out.append(run_untracked(e, t.get("seed", 0), t.get("mix", 0)))
             elif t["mode"] == "release":
                 out.append(run_release(e, t.get("seed", 0), t.get("kind", 0)))
             elif t["mode"] == "retry":
